@@ -274,7 +274,13 @@ def _run_ms1(case):
     sm = calc_scat_matrix(pts, s, nmed, wl, theory=Mie())
     ss = calc_scat_matrix(pts, target, nmed, wl, theory=ms)
     resid["ms1_smat_" + key] = relmax(ss, sm)
-    return {"resid": resid, "flags": {}, "cond": 0.0, "x": float(k * r)}
+    out = {"resid": resid, "flags": {}, "cond": 0.0, "x": float(k * r)}
+    if not case["tight"] and max(resid.values()) > 1e-2:
+        # with the default truncation tolerance the series of a single sphere can stop one order short of a sharp resonance (known finding
+        # F147): named as such only if the same sphere with a tight tolerance is right -- any other disagreement keeps the plain name
+        mt = Multisphere(meth=case["meth"], qeps1=1e-12, qeps2=1e-14, eps=1e-12)
+        out["tight_resolves_it"] = bool(relmax(calc_field(d, target, nmed, wl, pol, theory=mt), fm) <= 1e-5 and relmax(calc_scat_matrix(pts, target, nmed, wl, theory=mt), sm) <= 1e-5)
+    return out
 
 
 def _run_layacc(case):
@@ -406,6 +412,8 @@ def judge(case, obs):
                 regime += "." + case["bessel"]
             if case["kind"] == "ms1" and obs.get("x", 0) > 25:
                 regime = ".sphere_beyond_order_32"
+            elif case["kind"] == "ms1" and obs.get("tight_resolves_it"):
+                regime = ".default_truncation_misses_resonance"
             if case["kind"] == "layered" and obs.get("x", 1.0) < 0.1:
                 regime = ".size_parameter_below_0.1"
             out.append({"mech": "%s.%s%s" % (case["kind"], k, regime), "detail": "%s=%.3e > %.1e (reference conditioning %.1e); %s" % (k, v, t, obs["cond"], desc)})
